@@ -996,8 +996,11 @@ class World:
         _FREEZE_LOG = [] if cellp else None
         down_before = set()
         if cellp:
+            # (explicitly recorded as down; a missing record - never written,
+            # or deleted by an admin under a master that does not know yet -
+            # says nothing)
             down_before = {name for name in self.truth.srv
-                           if self._stored_state(name) in ('down', None)}
+                           if self._stored_state(name) == 'down'}
         try:
             self._guard('check_integrity', master.check_integrity)
         except MasterDied as err:
@@ -1501,6 +1504,27 @@ class Generator:
             {'op': 'restart'}])
         return {'op': 'presence_down', 'name': name}
 
+    def g_pending_start_then_down(self, world):
+        """Instances are placed but have not reported running when the
+        pending-start check notes them; then their server goes down and stays
+        down past the start interval: nothing may be taken off it before the
+        retention time."""
+        stored = world.stored_placement()
+        running = set(world.zk.children(z.RUNNING) or [])
+        servers = sorted({s for app, recs in stored.items()
+                          if app not in running for s, _d in recs
+                          if world.zk.nodes.get(z.path.server_presence(s))})
+        if not servers:
+            return None
+        name = self.rng.choice(servers)
+        self.follow.extend([
+            {'op': 'presence_down', 'name': name},
+            {'op': 'drain'}, {'op': 'master_cycle'},
+            {'op': 'advance', 'dt': self.rng.choice([301.0, 400.0])},
+            {'op': 'integrity'},
+            {'op': 'master_cycle'}])
+        return {'op': 'integrity'}
+
     def g_flap_with_reload(self, world):
         """A server with instances goes down, its record is changed while it
         is down (so it comes back as a new server object), and it goes down
@@ -1579,6 +1603,7 @@ OP_WEIGHTS = [
     ('master_cycle', 22), ('integrity', 3), ('tick', 1), ('restart', 3),
     ('failover_after_down', 3), ('identity_churn', 6), ('cell_bucket', 2),
     ('flap_with_reload', 2), ('zombie_write', 1), ('probe_after_group', 2),
+    ('pending_start_then_down', 2),
 ]
 
 
